@@ -51,6 +51,19 @@ namespace rkverif {
     a = static_cast<Obj *>(nullptr);
     a = static_cast<Ref<Obj> &&>(b);
     e = d;  // converting constructor + move assignment of the temporary
+    // conversions selected by overload resolution, so that any converting member template the class has (today only the
+    // const& converting constructor; a converting move constructor / converting assignments if they are ever added) is
+    // instantiated and analysed: Derived -> Base from lvalue, rvalue and raw pointer, construction and assignment
+    IntrusivePtr<Base> fromRvalue(static_cast<IntrusivePtr<Derived> &&>(d));
+    IntrusivePtr<Base> fromRaw(static_cast<Derived *>(nullptr));
+    e = static_cast<IntrusivePtr<Derived> &&>(d);
+    e = static_cast<Derived *>(nullptr);
+    const IntrusivePtr<Derived> cd(d);
+    IntrusivePtr<Base> fromConst(cd);
+    e = cd;
+    (void)(e == fromRvalue);
+    (void)(e != fromRaw);
+    (void)(e < fromConst);
     (void)(a == b);
     (void)(a != b);
     (void)(a < b);
